@@ -1,11 +1,12 @@
 """Helpers shared by the property modules."""
+import contextlib
 import penman
 from penman.tree import Tree
 
 from pv.ref import interp
 from pv.ref.interp import is_atom, to_node
 
-INDENTS = [None, -1, 0, 1, 2, 3, 7]
+INDENTS = [None, -1, 0, 1, 2, 3, 7, 12]
 OPTS = [[i, c] for i in INDENTS for c in (False, True)]
 
 
@@ -138,6 +139,36 @@ def churn_models(node):
         for r in sorted(rs | {r + '-of' for r in rs}):
             tmp.has_role(r); tmp.is_role_inverted(r); tmp.invert_role(r); tmp.canonicalize_role(r); tmp.canonical_order(r)
         del tmp
+
+
+@contextlib.contextmanager
+def debug_logging():
+    """What "penman -vvv" (or logging.basicConfig(level=DEBUG) in an application) sets up: the ambient level of the
+    "penman" logger is DEBUG.  Records are formatted (as a stream handler would) and dropped.  Results must not depend
+    on it.  The harness switches logging off globally; this switches it on for the duration of the block only."""
+    import logging
+
+    class _Sink(logging.Handler):
+        def emit(self, record):
+            try:
+                record.getMessage()
+            except Exception:       # a stream handler prints formatting errors to stderr and carries on
+                pass
+
+    lg = logging.getLogger('penman')
+    old = (lg.level, lg.propagate, logging.root.manager.disable)
+    h = _Sink()
+    lg.addHandler(h)
+    lg.setLevel(logging.DEBUG)
+    lg.propagate = False
+    logging.disable(logging.NOTSET)
+    try:
+        yield
+    finally:
+        lg.removeHandler(h)
+        lg.setLevel(old[0])
+        lg.propagate = old[1]
+        logging.disable(old[2])
 
 
 def fmt(node, indent=None, compact=False, meta=None):
